@@ -123,6 +123,9 @@ func (sc *Scope) eval(e *Expr) (tv, error) {
 		if v, ok := sc.vars[e.Name]; ok {
 			return v, nil
 		}
+		if v, ok := vc.ghosts[e.Name]; ok {
+			return v, nil
+		}
 		if a, ok := vc.freeCells[e.Name]; ok && sc.depth == 0 {
 			return tv{vc.load(sc.cur, a), a.typ}, nil
 		}
@@ -800,6 +803,20 @@ func (sc *Scope) callExpr(e *Expr) (tv, error) {
 	errf := func(format string, a ...interface{}) (tv, error) {
 		return tv{}, fmt.Errorf("spec %q: %s", e.String(), fmt.Sprintf(format, a...))
 	}
+	if e.Name == "local" && len(e.Args) == 1 {
+		// local(x): the source variable x of the function (for locals whose name collides with a spec keyword, e.g. `result`)
+		a := e.Args[0]
+		name := a.Name
+		if a.Op == "result" {
+			name = "result"
+		}
+		if name != "" && sc.resolver != nil {
+			if v, ok := sc.resolver(name); ok {
+				return v, nil
+			}
+		}
+		return errf("no local variable of that name here")
+	}
 	var args []tv
 	for _, a := range e.Args {
 		v, err := sc.eval(a)
@@ -1185,6 +1202,22 @@ func (f *frame) loopScope(li *loopInfo, st *State, ov map[ssa.Value]Sym) *Scope 
 	}
 	sc.resolver = func(name string) (tv, bool) {
 		v := f.resolveLocal(name, li.header)
+		if v == nil && name == "rangei" {
+			// `for _, x := range s`: the (unnamed) index of the element about to be visited
+			for _, in := range li.header.Instrs {
+				if phi, ok := in.(*ssa.Phi); ok && phi.Comment == "rangeindex" {
+					var ps Sym
+					if s, ok := ov[phi]; ok && ov != nil {
+						ps = s
+					} else if s, ok := f.env[phi]; ok {
+						ps = s
+					}
+					if pt, ok := ps.(sv); ok {
+						return tv{sv{fmt.Sprintf("(+ %s 1)", pt.t)}, phi.Type()}, true
+					}
+				}
+			}
+		}
 		if v == nil {
 			// range loops: the index variable is `rangeindex + 1`, computed in the header right after the phi
 			var cands []ssa.Instruction
@@ -1247,6 +1280,14 @@ func (f *frame) loopScope(li *loopInfo, st *State, ov map[ssa.Value]Sym) *Scope 
 		}()
 		if s == nil {
 			return tv{}, false
+		}
+		// address of a local cell (address-taken local, named result of a function with recover): its current content
+		if a, ok := s.(adv); ok {
+			if p, isP := v.Type().Underlying().(*types.Pointer); isP {
+				if _, isAlloc := v.(*ssa.Alloc); isAlloc {
+					return tv{vc.load(st, a), p.Elem()}, true
+				}
+			}
 		}
 		return tv{s, v.Type()}, true
 	}
